@@ -54,6 +54,17 @@ theorem too_long_is_orphan (fs : FS) (file : RawPath) (boundary : Option RawPath
     (h : rawLen file > maxSearchablePathBytes) : findRepoForFile fs file boundary = none := by
   simp [findRepoForFile, h]
 
+/-- **`_partial`: the chosen root contains the path.** Provable only with `hstart` (the
+    containing directory exists, so `canonicalize` succeeds): FULL STATEMENT without it is false,
+    see `witness_dotdot_through_missing`; the excluded region is closed again by the second gate,
+    `recorded_only_in_containing_root`, which has no such hypothesis. -/
+theorem routing_contains_path_partial (fs : FS) (hwf : fs.WF = true) (file : RawPath) (boundary : Option RawPath)
+    (b : Option Dir) (hb : boundary.map (canonOr fs) = b.map asRaw)
+    (hlen : rawLen file ≤ maxSearchablePathBytes)
+    (d : Dir) (hstart : resolve fs (startDir fs file) = some d) (hd : dirOK fs d) (r : Dir)
+    (h : findRepoForFile fs file boundary = some r) : r <+: d :=
+  ((routing_exact fs hwf file boundary b hb hlen d hstart hd r).1 h).2.1
+
 /-- in every case (missing directories, `..` through them, …) the answer is a work-tree root -/
 theorem routing_answer_is_root (fs : FS) (file : RawPath) (boundary : Option RawPath) (r : Dir)
     (h : findRepoForFile fs file boundary = some r) : fs.rootKind r = some .normal := by
@@ -537,6 +548,7 @@ end GitAi.Routing
 #print axioms GitAi.Routing.routing_exact
 #print axioms GitAi.Routing.routing_orphan
 #print axioms GitAi.Routing.too_long_is_orphan
+#print axioms GitAi.Routing.routing_contains_path_partial
 #print axioms GitAi.Routing.routing_answer_is_root
 #print axioms GitAi.Routing.group_assignment
 #print axioms GitAi.Routing.orphan_in_no_group
